@@ -36,21 +36,32 @@ Infix "+++" := String.append (right associativity, at level 60).
 
 Record field_decl := mkField { fd_struct : string; fd_field : string; fd_cat : tycat }.
 
-Record func_decl := mkFunc {
+Record func_decl := mkFuncC {
   fn_name : string;
   fn_exported : bool;       (* callable from outside the package *)
   fn_value_used : bool;     (* used as a function value / reachable through an interface / escaping literal *)
   fn_ctor : bool;
-  fn_entry : lockset        (* claimed "held by every caller" (same receiver object) *)
+  fn_entry : lockset;       (* claimed "held by every caller" (same receiver object) *)
+  fn_entry_conds : list string
+                            (* claimed history facts "set:$.f" that hold at EVERY call of this context ("$" = its
+                               receiver): the caller - or the goroutine that spawned it - executed `$.f = true` before *)
 }.
 
-Record call_site := mkCall {
+Record call_site := mkCallC {
   cs_callee : string; cs_caller : string;
   cs_locks : lockset;       (* locks of the callee's receiver object lexically held at the call *)
   cs_same_recv : bool;      (* callee's receiver is the caller's receiver: caller's entry locks carry over *)
-  cs_spawn : bool;          (* go statement / WaitGroup.Go: nothing carries over *)
-  cs_dbg : string
+  cs_spawn : bool;          (* go statement / WaitGroup.Go: no LOCK carries over (history facts do) *)
+  cs_dbg : string;
+  cs_conds : list string;   (* history facts known lexically at the call, about the callee's receiver *)
+  cs_inherit : bool         (* callee's "$" is the caller's "$" (same receiver object, or a closure of the caller):
+                               the caller's own entry facts carry over - also across a spawn *)
 }.
+
+(* the five/six-argument constructors used before entry facts existed (examples, older tables) *)
+Definition mkFunc (n : string) (e v c : bool) (en : lockset) : func_decl := mkFuncC n e v c en [].
+Definition mkCall (callee caller : string) (l : lockset) (sr sp : bool) (d : string) : call_site :=
+  mkCallC callee caller l sr sp d [] false.
 
 Record site := mkSite {
   s_struct : string; s_field : string; s_func : string;
@@ -94,6 +105,9 @@ Fixpoint decl_of (fs : list func_decl) (f : string) : option func_decl :=
 
 Definition entry_of (fs : list func_decl) (f : string) : lockset :=
   match decl_of fs f with Some d => fn_entry d | None => [] end.
+
+Definition entry_conds_of (fs : list func_decl) (f : string) : list string :=
+  match decl_of fs f with Some d => fn_entry_conds d | None => [] end.
 
 (* the static lock annotation of a site: lexical locks plus the entry locks of its context *)
 Definition eff_locks (tbl : access_table) (s : site) : lockset :=
@@ -225,11 +239,44 @@ Definition site_key (s : site) : fkey := (s_struct s, s_field s).
 Definition common_lock (a b : lockset) : bool :=
   existsb (fun p => (is_ex (snd p) && holds_any b (fst p)) || holds_ex b (fst p)) a.
 
+Definition is_nil' {A} (l : list A) : bool := match l with [] => true | _ => false end.
+
 Definition has_all (need have : list string) : bool :=
   forallb (fun c => existsb (String.eqb c) have) need.
 
+(* conditions known at a site: the lexical ones plus the entry facts of its context (certified from the call sites by
+   [cond_entry_failures], as the entry locks are by [entry_failures]) *)
+Definition eff_conds (tbl : access_table) (s : site) : list string :=
+  (s_conds s ++ (if s_same_recv s then entry_conds_of (t_funcs tbl) (s_func s) else []))%list.
+
+(* [reach_only_from tbl fuel anc f]: f is anc, or f is a private context (not exported, not a function value) that has
+   call sites and ALL of them are in contexts reached only from anc (spawns included) *)
+Fixpoint reach_only_from (tbl : access_table) (fuel : nat) (anc f : string) : bool :=
+  String.eqb anc f ||
+  match fuel with
+  | O => false
+  | S k =>
+    match decl_of (t_funcs tbl) f with
+    | None => false
+    | Some d =>
+      negb (fn_exported d) && negb (fn_value_used d) &&
+      let cs := filter (fun c => String.eqb (cs_callee c) f) (t_calls tbl) in
+      negb (is_nil' cs) && forallb (fun c => reach_only_from tbl k anc (cs_caller c)) cs
+    end
+  end.
+
+(* function patterns of an HBVia pair side: "*" = any context (the side is characterised by its conditions and locks
+   alone); "F/*" = F or any context reached only from F (helpers F calls, goroutines F spawns); otherwise the name *)
+Definition fn_matches (tbl : access_table) (pat f : string) : bool :=
+  if String.eqb pat "*" then true
+  else
+    let n := String.length pat in
+    if (2 <=? n)%nat && String.eqb (String.substring (n - 2) 2 pat) "/*"
+    then reach_only_from tbl (length (t_funcs tbl)) (String.substring 0 (n - 2) pat) f
+    else String.eqb pat f.
+
 Definition side_ok (tbl : access_table) (f : string) (cs : list string) (ls : lockset) (s : site) : bool :=
-  String.eqb f (s_func s) && has_all cs (s_conds s) && covers (eff_locks tbl s) ls.
+  fn_matches tbl f (s_func s) && has_all cs (eff_conds tbl s) && covers (eff_locks tbl s) ls.
 
 Definition pair_listed (tbl : access_table) (pairs : list hbpair) (a b : site) : bool :=
   existsb (fun p =>
@@ -344,17 +391,116 @@ Definition entry_failures (tbl : access_table) : list string :=
         then [] else [line "entry" "" "" (fn_name f) "" ("caller " +++ cs_caller c +++ " does not hold the claimed entry locks") (cs_dbg c)]
       else []) (t_calls tbl))%list) (t_funcs tbl).
 
+(* the "holds at every call" certificate for entry facts: a context that claims some is private, and every call site
+   (spawns included: a history fact survives a go statement) provides them - lexically, or through the caller's own
+   certified entry facts when the callee's receiver is the caller's *)
+Definition call_conds (tbl : access_table) (c : call_site) : list string :=
+  (cs_conds c ++ (if cs_inherit c then entry_conds_of (t_funcs tbl) (cs_caller c) else []))%list.
+
+Definition cond_entry_failures (tbl : access_table) : list string :=
+  flat_map (fun f =>
+    if is_nil (fn_entry_conds f) then [] else
+    ((if fn_exported f || fn_value_used f
+     then [line "entryfact" "" "" (fn_name f) "" "entry facts claimed for a function callable from anywhere" ""]
+     else []) ++
+    flat_map (fun c =>
+      if String.eqb (cs_callee c) (fn_name f) then
+        if has_all (fn_entry_conds f) (call_conds tbl c)
+        then [] else [line "entryfact" "" "" (fn_name f) "" ("caller " +++ cs_caller c +++ " does not establish the claimed entry facts") (cs_dbg c)]
+      else []) (t_calls tbl))%list) (t_funcs tbl).
+
 (* functional options are applied only inside constructors *)
 Definition opt_failures (tbl : access_table) : list string :=
   flat_map (fun p : string * bool => if snd p then [] else
     [line "option" "" "" (fst p) "" "functional option applied outside a constructor" ""]) (t_opts tbl).
 
+(* an Unlock/RUnlock must release a lock taken in the SAME function context (lexically held at the call).  The
+   extractor's `release` of a lock it does not see as held is a no-op: a helper that unlocks on behalf of its caller
+   would leave the caller's later sites recorded as still under the lock.  Such a table is rejected here (no
+   exception list applies: this is about the soundness of the table itself, audit M11). *)
+Definition is_unlock (s : site) : bool :=
+  match s_kind s with
+  | Use => String.eqb (s_note s) "Unlock" || String.eqb (s_note s) "RUnlock"
+  | _ => false
+  end.
+
+Definition unlock_failures (tbl : access_table) : list string :=
+  flat_map (fun s =>
+    if is_unlock s && negb (holds_any (s_lex s) (s_struct s +++ "." +++ s_field s))
+    then [line "unlock" (s_struct s) (s_field s) (s_func s) (kind_name (s_kind s))
+               "Unlock of a lock that is not lexically held in this function: the lock sets recorded for its callers cannot be trusted"
+               (s_dbg s)]
+    else []) (t_sites tbl).
+
 Definition failures (pol : policy) (exc : list fkey) (tbl : access_table) : list string :=
   (field_failures pol exc tbl ++ site_failures pol exc tbl ++ pair_failures pol exc tbl ++
-   entry_failures tbl ++ opt_failures tbl)%list.
+   entry_failures tbl ++ opt_failures tbl ++ unlock_failures tbl ++ cond_entry_failures tbl)%list.
 
 Definition table_ok (pol : policy) (exc : list fkey) (tbl : access_table) : bool :=
   is_nil (failures pol exc tbl).
+
+(* ------------------------------------------------------------------ (3b) inferred policies
+   A field of a tracked struct that the hand-written policy does not name (a renamed field, a new field) is NOT a
+   failure by itself: a discipline is INFERRED from the access table (Eraser-style) and then CHECKED by exactly the
+   same [cat_check]/[site_check] as a declared one - the inference only proposes, so nothing about it is trusted.
+   Candidates, in this order:
+     SyncTyped      a sync/atomic value that is only used through its methods, never re-assigned or copied;
+     CtorOnly       no write outside constructors/options;
+     Immutable      no write through a shared reference (fresh literal / private copy / constructor only);
+     GuardedBy l    one lock l held at EVERY shared access, exclusively at every write - l ranges over the locks
+                    effectively held (lexically + the entry locks of the function, themselves certified from the call
+                    sites by [entry_failures]) at the field's first shared access site: a common lock is among them.
+   The first candidate under which the field's category and ALL its sites pass is the field's inferred policy.  If none
+   passes (an unguarded write outside constructors, no common lock) the field stays "unknown to the policy" and the
+   table fails, as before.  HBVia / GuardedMono are never inferred.  Declared entries are authoritative: [effective]
+   puts them first and [lookup] takes the first match, so a declared GuardedBy must hold even where some other
+   discipline could be inferred. *)
+Definition sites_of (tbl : access_table) (k : fkey) : list site :=
+  filter (fun s => fkey_eqb (site_key s) k) (t_sites tbl).
+
+Definition passes (tbl : access_table) (cat : tycat) (ss : list site) (p : fpolicy) : bool :=
+  match cat_check p cat with
+  | Some _ => false
+  | None => forallb (fun s => match site_check tbl p s with None => true | Some _ => false end) ss
+  end.
+
+Definition lock_candidates (tbl : access_table) (ss : list site) : list string :=
+  match filter (fun s => negb (is_pre s)) ss with
+  | [] => []
+  | s :: _ => map fst (eff_locks tbl s)
+  end.
+
+Definition candidates (tbl : access_table) (ss : list site) : list fpolicy :=
+  ([SyncTyped; CtorOnly; Immutable] ++ map GuardedBy (lock_candidates tbl ss))%list.
+
+Definition infer_field (tbl : access_table) (f : field_decl) : option fpolicy :=
+  let ss := sites_of tbl (fd_struct f, fd_field f) in
+  find (passes tbl (fd_cat f) ss) (candidates tbl ss).
+
+Definition inferred (pol : policy) (tbl : access_table) : policy :=
+  flat_map (fun f =>
+    let k := (fd_struct f, fd_field f) in
+    match lookup pol k with
+    | Some _ => []
+    | None => match infer_field tbl f with Some p => [(k, p)] | None => [] end
+    end) (t_fields tbl).
+
+(* the policy the table is checked against: the declared entries, then the inferred ones *)
+Definition effective (pol : policy) (tbl : access_table) : policy := (pol ++ inferred pol tbl)%list.
+
+Definition policy_name (p : fpolicy) : string :=
+  match p with
+  | GuardedBy l => "GuardedBy " +++ l
+  | GuardedMono l => "GuardedMono " +++ l
+  | SyncTyped => "SyncTyped"
+  | CtorOnly => "CtorOnly"
+  | Immutable => "Immutable"
+  | HBVia n _ => "HBVia " +++ n
+  end.
+
+(* for the evidence: "<struct>.<field> -> <discipline>" *)
+Definition inferred_report (pol : policy) (tbl : access_table) : list string :=
+  map (fun e : fkey * fpolicy => fst (fst e) +++ "." +++ snd (fst e) +++ " -> " +++ policy_name (snd e)) (inferred pol tbl).
 
 (* which conflicting pairs the theorem does NOT exclude: excepted fields and listed HBVia pairs *)
 Definition excused (pol : policy) (exc : list fkey) (tbl : access_table) (a b : site) : bool :=
